@@ -42,8 +42,8 @@ def extra_eval(c, io, mo):
     return fails
 
 
-from props import gen_rpfc
-CFG = DC.Config("C03", RANK_KINDS, make_cmds, components=[gen_rpfc], nsets=(12, 36), big=True, extra_eval=extra_eval,
+from props import gen_rpfc, gen_codes
+CFG = DC.Config("C03", RANK_KINDS, make_cmds, components=[gen_rpfc, gen_codes], nsets=(12, 36), big=True, extra_eval=extra_eval,
                 rule="front-coding kinds, RPDAC, FMINDEX (+XBW for rank operations): extract(i) must be exactly the i-th smallest "
                      "member, locate increasing with the string, extractRank(k) the k-th smallest and extract(locateRank(k)) equal to it; "
                      "sets as in C01. Non-trivial = a query command; distinct by (kind, params, S, command).")
